@@ -47,6 +47,9 @@ type Proto struct {
 	// PluginsMode: list | missing | null | empty | scalar | map
 	PluginsMode string   `json:"pluginsmode,omitempty"`
 	Plugins     []Plugin `json:"plugins,omitempty"`
+	// Scalar: if set, the whole section is this YAML value instead of a mapping (a scalar or a
+	// list): a section without a plugins list
+	Scalar string `json:"scalar,omitempty"`
 }
 
 // Mut is one byte mutation of the rendered text
@@ -122,6 +125,10 @@ func Render(c *Case) string {
 	pad := strings.Repeat(" ", ind)
 	section := func(name string, p *Proto, v6 bool) {
 		if !p.Present {
+			return
+		}
+		if p.Scalar != "" {
+			sb.WriteString(name + ": " + p.Scalar + "\n")
 			return
 		}
 		if c.Flow {
@@ -315,6 +322,19 @@ type expAddr struct {
 	zone string
 }
 
+// ifSnapshot describes the host's interfaces (names and flags) at this instant
+func ifSnapshot() string {
+	ifs, err := net.Interfaces()
+	if err != nil {
+		return "error"
+	}
+	var sb strings.Builder
+	for _, i := range ifs {
+		fmt.Fprintf(&sb, "%d:%s:%d;", i.Index, i.Name, i.Flags)
+	}
+	return sb.String()
+}
+
 // mcastIfaces is the harness's own scan of the interfaces
 func mcastIfaces(v4 bool) []string {
 	ifs, err := net.Interfaces()
@@ -337,6 +357,9 @@ func mcastIfaces(v4 bool) []string {
 // expectProto returns the expected addresses and plugins, or the reason the
 // section must be rejected
 func expectProto(p *Proto, v6 bool) (addrs []expAddr, reject string) {
+	if p.Scalar != "" {
+		return nil, "section-not-a-mapping"
+	}
 	switch p.PluginsMode {
 	case "missing", "null", "empty", "scalar", "map":
 		return nil, "plugins-" + p.PluginsMode
@@ -522,6 +545,14 @@ func Exec(c Case) (res core.Result) {
 	}
 	var a4, a6 []expAddr
 	reject := ""
+	// the expansion of multicast listen addresses depends on the host's interfaces: if they
+	// change while the case runs (somebody creates or removes a link) nothing can be concluded
+	ifBefore := ifSnapshot()
+	defer func() {
+		if ifSnapshot() != ifBefore {
+			res = core.Result{Skipped: "host-interfaces-changed"}
+		}
+	}()
 	// the DHCPv6 section is parsed first
 	if c.P6.Present {
 		a6, reject = expectProto(&c.P6, true)
